@@ -117,6 +117,21 @@ def _alt_bg_vat(n):
 
 ALT = {'bg.vat': _alt_bg_vat}
 
+# Calling convention of the generators whose validate() passes the WHOLE number (`calc_x(number) != number[i]`).
+# Specification data, reviewed at the pinned commit: these generators also accept the bare payload (the number
+# without its check characters), which is how a caller completes a payload (clause "completing a well-formed
+# payload with the generated check character(s) is never rejected with a checksum error").  The others of that
+# kind (at.vnr, cn.ric, ee.ik, es.ccc, eu.at_02, iban, ru.ogrn) index by position and are documented or written to
+# take the full-length number ("The number passed should have the check digit included").  A generator that
+# silently moves from the first group to the second breaks payload completion (relation a-rest).
+PAYLOAD_ONLY_OK = {
+    'stdnum.at.tin', 'stdnum.au.acn', 'stdnum.br.cnpj', 'stdnum.by.unp', 'stdnum.cn.uscc', 'stdnum.es.cups',
+    'stdnum.es.referenciacatastral', 'stdnum.eu.eic', 'stdnum.fr.nif', 'stdnum.fr.nir', 'stdnum.gh.tin', 'stdnum.it.aic',
+    'stdnum.md.idno', 'stdnum.me.pib', 'stdnum.mk.edb', 'stdnum.mu.nid', 'stdnum.mx.curp', 'stdnum.no.fodselsnummer',
+    'stdnum.pe.ruc', 'stdnum.si.emso', 'stdnum.si.maticna', 'stdnum.sv.nit', 'stdnum.th.pin', 'stdnum.tr.tckimlik',
+    'stdnum.tr.vkn', 'stdnum.ua.edrpou', 'stdnum.ua.rntrc', 'stdnum.uy.rut', 'stdnum.ve.rif', 'stdnum.vn.mst',
+}
+
 # candidate projections tried (in this order) when there is neither a HARD entry nor a source hint
 GENERIC = [
     ('n[:-1]', (-1, None)), ('n', (-1, None)),
@@ -440,6 +455,22 @@ def module_job(arg):
                     _chk.value_site(modname, p['gen'], 'generator-disagrees-with-whitelisted-valid-number' if wl
                                     else 'generator-disagrees-with-valid-number'),
                     'a: generator(payload(v)) == check(v)', number=n, projection=p, vkwargs=kw, origin=origin))
+            # a-rest: generators that take the whole number in validate() but are callable on the bare payload
+            if ok and p['payload'].strip() == 'n' and p['mode'] == 'eq' and not p.get('guard') and modname in PAYLOAD_ONLY_OK:
+                rest = n[:a] + n[b:]
+                try:
+                    gr = ('ok', getattr(mod, p['gen'])(rest))
+                except Exception as e:   # noqa: B902
+                    gr = ('exc', type(e).__name__)
+                cases += 1
+                dist['a_rest_checked'] = dist.get('a_rest_checked', 0) + 1
+                if gr != ('ok', n[a:b]):
+                    col.add(_chk.make_case(
+                        modname, p['gen'], [rest], 'generator gives %s on the payload alone' % (gr[1],),
+                        'the check character(s) %r of the valid number %r (as it gives on the whole number)' % (n[a:b], n),
+                        _chk.value_site(modname, p['gen'], 'generator-wrong-on-bare-payload'),
+                        'a-rest: generator(number without its check characters) == check(v)', number=n, projection=p,
+                        vkwargs=kw, origin=origin))
             # does the generator look at the check position itself?
             if g[0] == 'ok' and p['payload'] == 'n':
                 other = n[:a] + ''.join('1' if c == '0' else '0' for c in n[a:b]) + n[b:]
@@ -774,6 +805,16 @@ def replay(case):
         mod = common.module(case['module'])
         args, kwargs = _chk.case_args(case)
         rel = case.get('relation', '')[:1]
+        if case.get('relation', '').startswith('a-rest'):
+            n, p = case['number'], case['projection']
+            a, b = check_span(p, n)
+            if _chk.call(mod.validate, n, **case.get('vkwargs', {}))[0] != 'ok':
+                return None
+            try:
+                gr = ('ok', getattr(mod, p['gen'])(n[:a] + n[b:]))
+            except Exception as e:   # noqa: B902
+                gr = ('exc', type(e).__name__)
+            return None if gr == ('ok', n[a:b]) else dict(case, observed='generator gives %s on the payload alone' % (gr[1],))
         if rel == 'a' and case['function'] != 'validate':
             n, p = case['number'], case['projection']
             o = _chk.call(mod.validate, n, **case.get('vkwargs', {}))
